@@ -118,6 +118,9 @@ func (s *SessionEntry) SetInherited(v bool) {
 
 // IsExpired checks if the session has expired
 func (s *SessionEntry) IsExpired() bool {
+	if verifOn {
+		verifGate("IsExpired", s.id)
+	}
 	s.mu.Lock()
 	defer s.mu.Unlock()
 	if s.expiration.IsZero() {
